@@ -764,7 +764,11 @@ func (c *linkerContext) generateChunksInParallel(additionalFiles []graph.OutputF
 				jsonMetadataChunkPieces := c.breakJoinerIntoPieces(chunk.jsonMetadataChunkCallback(len(outputContents)))
 				jsonMetadataChunkBytes, _ := c.substituteFinalPaths(jsonMetadataChunkPieces, func(finalRelPathForImport string) string {
 					prettyPaths := resolver.MakePrettyPaths(c.fs, logger.Path{Text: c.fs.Join(c.options.AbsOutputDir, finalRelPathForImport), Namespace: "file"})
-					return prettyPaths.Select(c.options.MetafilePathStyle)
+
+					// The path is substituted into the middle of a JSON string literal, so
+					// it needs to be escaped (but without the surrounding quotes)
+					quoted := helpers.QuoteForJSON(prettyPaths.Select(c.options.MetafilePathStyle), c.options.ASCIIOnly)
+					return string(quoted[1 : len(quoted)-1])
 				})
 				jsonMetadataChunk = string(jsonMetadataChunkBytes.Done())
 			}
